@@ -2110,6 +2110,7 @@ func (a *Agent) handleStreamData(peerID identity.AgentID, frame *protocol.Frame)
 
 	// Check if data is from upstream (matches upRelay's upstream peer)
 	if upRelay != nil && peerID == upRelay.UpstreamPeer {
+		verifhook.At("agent.relay.lookup", a, peerID, frame)
 		// Data from upstream, forward to downstream
 		fwdFrame := &protocol.Frame{
 			Type:     protocol.FrameStreamData,
@@ -2123,6 +2124,7 @@ func (a *Agent) handleStreamData(peerID identity.AgentID, frame *protocol.Frame)
 
 	// Check if data is from downstream (matches downRelay's downstream peer)
 	if downRelay != nil && peerID == downRelay.DownstreamPeer {
+		verifhook.At("agent.relay.lookup", a, peerID, frame)
 		// Data from downstream, forward to upstream
 		fwdFrame := &protocol.Frame{
 			Type:     protocol.FrameStreamData,
